@@ -594,17 +594,41 @@ Proof.
 Qed.
 
 (* ------------------------------------------------------------------------- *)
-(* Findings                                                                   *)
+(* The marker limit                                                           *)
 (* ------------------------------------------------------------------------- *)
-(* The marker limit (MaxLocalReferenceCount is the field consulted) is not necessary: a marker on a
-   chunked string in map-key position is never registered, so a complete document with one marker is
-   accepted under a limit of zero. *)
-Definition marker_limit_witness_cfg : rcfg :=
-  {| max_object_count := 100; max_container_depth := 10; max_array_size_bytes := 100; max_identifier_length := 10;
-     max_local_reference_count := 0; expected_version := 0 |}.
-Definition marker_limit_witness : list event :=
-  [EBeginDoc; EVersion 0; EMap; EMarker [97]; EArrayBegin AT_String; EArrayChunk 1 false; EArrayData [120]; ENull; EEnd; EEndDoc].
+(* the number of registered markers is checked against the limit at every registration *)
+Lemma call_rule_refcount_bound cfg f r m a c c' :
+  call_rule f cfg r m a c = Some c' -> refcount c <= max_local_reference_count cfg -> refcount c' <= max_local_reference_count cfg.
+Proof.
+  intro H.
+  refine (call_rule_R cfg (fun c c' => refcount c <= max_local_reference_count cfg -> refcount c' <= max_local_reference_count cfg)
+            (fun _ => True) (fun _ => true) _ _ _ _ f r m a c c' I H);
+    [ auto | intros x y z H1 H2 H3; auto | | vm_compute; reflexivity ].
+  intros call Hcall self m0 a0 p c0 c0' _ _ E.
+  prim_cases p E; intro B; rsimpl; try assumption; try lia;
+    match goal with H : call _ _ _ _ = Some _ |- _ => apply (Hcall _ _ _ _ _ I H); rsimpl; lia end.
+Qed.
 
-Lemma marker_limit_necessary_refuted :
-  exists cfg es, accepts_document cfg es = true /\ max_local_reference_count cfg < marker_usage es.
-Proof. exists marker_limit_witness_cfg, marker_limit_witness. vm_compute. split; reflexivity. Qed.
+Lemma steps_refcount_bound cfg es : forall c c',
+  steps cfg c es = Some c' -> refcount c <= max_local_reference_count cfg -> refcount c' <= max_local_reference_count cfg.
+Proof.
+  induction es as [|e es IH]; intros c c' H B; cbn [steps] in H; [inv_some; exact B|].
+  destruct (rstep cfg c e) as [[c1 o]|] eqn:R; [|discriminate]. apply (IH _ _ H). clear IH H.
+  rewrite rstep_plan in R. destruct (ev_plan cfg e) as [pl|]; [|discriminate].
+  destruct (plan_step cfg pl c) as [c2|] eqn:S; [|discriminate]. inv_some.
+  unfold plan_step, call_current in S. destruct (p_nno pl) as [real|].
+  - destruct (notify_new_object cfg real c) as [c0|] eqn:N; [|discriminate]. apply nno_fields in N.
+    eapply call_rule_refcount_bound; eauto. destruct N as [_ [_ [_ [_ [_ [_ [_ [_ [N _]]]]]]]]]. lia.
+  - eapply call_rule_refcount_bound; eauto.
+Qed.
+
+(* Necessity of the marker limit: in a complete document every marker is registered, and the number of
+   registered markers never exceeds the limit. *)
+Theorem document_markers_within cfg es :
+  accepts_document cfg es = true -> marker_usage es <= max_local_reference_count cfg.
+Proof.
+  rewrite accepts_document_steps. intros [c [H T]].
+  assert (refcount c = marker_usage es) as <-.
+  { apply (document_markers_registered cfg es c); [apply state_after_steps; exact H | rewrite T; reflexivity]. }
+  apply (steps_refcount_bound _ _ _ _ H). cbn. lia.
+Qed.
